@@ -9,6 +9,6 @@ for p in props:
                          env=dict(os.environ, VERIF_CALIBRATE="1", VERIF_NO_EVIDENCE="1")).stdout
     for m in re.finditer(r"^RULE (\S+)\s+obligations=(\d+) ok=(\d+) violations=(\d+)", out, re.M):
         decided = int(m.group(3)) + int(m.group(4))
-        floors[m.group(1)] = max(1, int(decided * 0.4))
+        floors[m.group(1)] = max(1, int(decided * 0.4)) if decided else 0
 json.dump(floors, open(os.path.join(HERE, "floors.json"), "w"), indent=1, sort_keys=True)
 print(len(floors), "rules calibrated")
